@@ -38,7 +38,17 @@ for d in sorted(os.listdir(os.path.join(ROOT, 'seeded'))):
     else:
         rr = str(r.get('status', 'not run'))
     note = m.get('note_main', '')
+    if str(note).startswith('obsolete'):
+        rr = 'obsolete (cannot be planted / is harmless on the current tree)'
     out.append('| %s | %s | %s | %s %s |' % (d, str(m.get('summary', ''))[:260].replace('|', '\\|').replace('\n', ' '),
                                           str(m.get('needs', ''))[:200].replace('|', '\\|').replace('\n', ' '), rr, note))
 open(os.path.join(ROOT, 'docs', 'SEEDS.md'), 'w').write('\n'.join(out) + '\n')
+out = ['# Open known findings (genuine defects of mindsdb_sql recorded, not repaired)', '',
+       'Generated from `known_findings.json`.  Each is reported as a KNOWN-FINDING line by the check of its property (exit 0);',
+       'anything the signature does not match is a VIOLATION.', '', '| id | property | what fails | why not repaired |', '|---|---|---|---|']
+for k in kf:
+    if k.get('status') == 'open':
+        why = k.get('why_open') or ('pinned by ' + ', '.join(k['pinned_by']) if k.get('pinned_by') else '')
+        out.append('| %s | %s | %s | %s |' % (k['id'], k['property'], str(k.get('what', ''))[:400].replace('|', '\\|').replace('\n', ' '), str(why).replace('|', '\\|')))
+open(os.path.join(ROOT, 'docs', 'OPEN_FINDINGS.md'), 'w').write('\n'.join(out) + '\n')
 print('fixes', sum(1 for l in log if ' fix:' in l), 'seeds', len(res))
